@@ -11,8 +11,9 @@ EXPLANATION = (
     'update arm; N3 every bulk collection site of DCAwareSelector::select_nodes filters the local node (the iterator type handed to '
     'extend contains a Filter whose closure is `item != local_node`); N4 select_n_nodes returns Ok only on the edge selected.len() >= n. '
     'N5 the candidate iterator of every bulk collection site carries no skipping adaptor (Skip / SkipWhile / StepBy / TakeWhile) and no filter other than '
-    'the local-node one: every other live node of the data centre is a candidate, whatever selections were made before. NOT decided: that enough nodes are found whenever they exist (cursor history and integer division — value level; known to fail '
-    'for One-then-Two on a 3-node data centre, invisible to static analysis), absence of duplicates, exact n.')
+    'the local-node one: every other live node of the data centre is a candidate, whatever selections were made before. N6 select_n_nodes reports NotEnoughNodes only after an unfiltered walk over every data centre of the layout during which nodes can '
+    'still be selected (the share-based first pass alone is not exhaustive: finding 13, fixed). NOT decided: the arithmetic of the shares '
+    '(value level), absence of duplicates, exact n.')
 ASSUMPTIONS = ['a data-centre node list handed to the selector has no duplicate addresses']
 
 NS = 'datacake_node::nodes_selector::'
@@ -207,8 +208,71 @@ def check_N4(ctx, facts):
            'select_n_nodes returns Ok only on the edge selected.len() >= n' if good else 'Ok can be returned with fewer than n nodes')
 
 
+def check_N6(ctx, facts):
+    """select_n_nodes reports a shortage only after an exhaustive walk: on every path to the Err return, every data centre
+    of the layout (no data-centre-level filter / sample) was walked with selection still possible.  The first pass
+    alone is not exhaustive: a rejected candidate consumes part of a data centre's share and the data centres are
+    visited once (finding 13)."""
+    b = facts.body(NS + 'select_n_nodes')
+    if b is None:
+        ctx.bad('C15.N6', 'anchor', '', 'select_n_nodes not found (fail closed)')
+        return
+    flow = Flow(b)
+    errs = err_return_blocks(b)
+    if not errs:
+        errs = [blk for blk, _j, s in b.assigns() if s['rv']['k'] == 'aggregate' and 'NotEnoughNodes' in str(s['rv'].get('vname', '')) + str(s['rv'].get('adt', ''))]
+    calls = list(b.calls())
+    MAPWALK = re.compile(r'^alloc::collections::btree::map::BTreeMap::(values|iter|values_mut|iter_mut)$')
+    DROP = re.compile(r'(Iterator::(filter|take|skip|step_by|take_while|skip_while|filter_map|nth|last)|IteratorRandom::choose(_multiple|_stable|_multiple_fill|_multiple_weighted)?)$')
+    pushes = [pb for pb, t in calls if cname(t) in ('smallvec::SmallVec::push', 'core::iter::traits::collect::Extend::extend', 'alloc::vec::Vec::push')]
+    walks = []
+    for wb, t in calls:
+        n = cname(t)
+        if not n or not MAPWALK.match(n):
+            continue
+        if 5 not in flow.backward([op_local(t['args'][0])]):
+            continue
+        fw = flow.forward([t['dest']['l']], stop=[0])
+        dropped = [cname(t2) for _b2, t2 in calls if cname(t2) and DROP.search(cname(t2)) and t2['args'] and op_local(t2['args'][0]) in fw
+                   and ty_head(b.local_ty(op_local(t2['args'][0])).lstrip('&').replace('mut ', '', 1).strip()).startswith('alloc::collections::btree::map::')]
+        selects = any(pb in b.reachable_from([wb]) for pb in pushes)
+        walks.append((wb, t, dropped, selects))
+    good_walks = [w for w in walks if not w[2] and w[3]]
+    # the walk may be skipped on the edge `selected.len() >= n` (then the final test takes the Ok branch: the selection
+    # is not shrunk anywhere in this function)
+    lens = {t['dest']['l'] for _b, t in calls if cname(t) == 'smallvec::SmallVec::len'}
+    enough_edges = []
+    for c in comparisons(b):
+        if c['rel'] not in ('>=', '<', '>', '<=') or c['lhs'] is None or c['rhs'] is None:
+            continue
+        la, lb_ = flow.backward([c['lhs']]), flow.backward([c['rhs']])
+        if lens & la and 3 in lb_:
+            rel = c['rel']
+        elif lens & lb_ and 3 in la:
+            rel = FLIP[c['rel']]
+        else:
+            continue
+        if rel in ('>=', '<'):
+            enough_edges.append(c['true_edge'] if rel == '>=' else c['false_edge'])
+    shrinks = [cname(t) for _b, t in calls if cname(t) and re.search(r'smallvec::SmallVec::(clear|pop|remove|truncate|drain|retain|swap_remove|dedup\w*)$', cname(t))]
+    if shrinks:
+        enough_edges = []
+    good = False
+    for w in good_walks:
+        R = b.reachable_from([0], avoid=[w[0]], avoid_edges=enough_edges)
+        if errs and not (set(errs) & R):
+            good = True
+    ctx.ob('C15.N6', 'shortage-only-after-exhaustive-walk', good, site(b, good_walks[0][1]['cs'] if good_walks else None),
+           'NotEnoughNodes is reported only after an unfiltered walk over every data centre of the layout during which nodes can still be selected' if good else
+           'select_n_nodes can report NotEnoughNodes without having walked every data centre unfiltered (%d walk(s) over the layout, each filtered / sampled '
+           'or off the error path): in the share-based pass a rejected candidate (the local node, or one already taken) uses up part of its data '
+           'centre\'s share and where that happens depends on the rotating cursors, so e.g. One followed by Two on a three-node data centre fails '
+           'although two other live nodes exist' % len(walks))
+
+
 def check(ctx):
     facts = ctx.facts('prod')
     check_actor(ctx, facts)
     check_N3(ctx, facts)
+    check_N6(ctx, facts)
     check_N4(ctx, facts)
